@@ -187,7 +187,13 @@ def _container(spec):
             rebuilt = Vector([_build_tree(t, True) for t in elems2]).fingerprint()
         except Exception as e:
             return {"skip": "refused: " + type(e).__name__}
-    return {"fam": "container", "case": {"elems": [_wire_tree(t) for t in elems], "elems2": [_wire_tree(t) for t in elems2]},
+    def big_set(t):
+        if not isinstance(t, dict):
+            return False
+        (k, items), = t.items()
+        return (k == "s" and len(set(items)) >= 2) or (k != "s" and any(big_set(x) for x in items))
+    return {"fam": "container", "case": {"elems": [_wire_tree(t) for t in elems], "elems2": [_wire_tree(t) for t in elems2],
+                                         "exact": not any(big_set(t) for t in elems + elems2)},
             "impl": {"v_before": vb, "v_again": again, "v_twin": tw, "v_after": va, "v_rebuilt": rebuilt}}
 
 
